@@ -6,6 +6,12 @@ CLAIMS = {
   "text": "Decides, for every module of funsor/, the structural facts from which the stack discipline follows by induction on nesting depth: only push_interpretation/pop_interpretation write funsor.interpreter._STACK (all aliases, reflective access included); those primitives are called only from Interpretation.__enter__/__exit__ and the two module-level base pushes (reflect, eager); every CFG path of __enter__/__exit__ and of every override performs exactly one push/pop (exceptional paths included) and pushes self or Prioritized(self, current); layering order (entering first, enclosing last, flatten in order, first non-None front to back); interpretations that delegate to the enclosing one capture it unconditionally at entry; no explicit __enter__/__exit__ calls, no plain generator suspended inside an interpretation context; dispatch reads the stack top. All sites and all paths are covered - not a sample of histories.",
   "note": "Trusts Python's with/ContextDecorator protocol and list.append/pop semantics; client code outside funsor/ is only inspected in the thorough tier (test/, examples/, scripts/). Statements whose ability to raise is undecidable are reported as unresolved, not failed.",
  },
+ "C15": {
+  "design_ref": "DESIGN.md section 4, C15 (R15.1-R15.7)",
+  "technique": "static analysis: op catalogue (every Base.make resolved to an abstract operation by its default implementation) compared entry-by-entry with an axiom table; AST mirror-image comparison of sibling registrations",
+  "text": "Decides the table clause and the sibling clauses: every entry of UNITS, DISTRIBUTIVE_OPS, BINARY_INVERSES, SAFE_BINARY_INVERSES, UNARY_INVERSES, PRODUCT_TO_POWER, REDUCE_OP_TO_NUMERIC and the einsum backend tables - read wherever it is written - is a theorem of the abstract operation its op resolves to (neutral element by value and boolean-ness, distributivity with carrier, inverse, power, fold, backend semiring); (scalar, array)/(array, scalar) registrations of commutative ops are mirror images; library functions registered for an op are its counterpart (found np.amax registered for amin on the jax backend). Exhaustive over the finite set of entries/registrations. NOT decided: the numerical clauses (scalar vs 0-d vs array values, exact limits at -inf/overflow, NaN-freeness of safe ops) - these quantify over floating-point values.",
+  "note": "Trusts funsorlint/axioms.py (textbook facts) and the documented meaning of operator.*/math.*/numpy reductions. Ops whose identity cannot be resolved make their entries 'unresolved' (reported, never failed).",
+ },
 }
 
 NOT_APPLICABLE = {
@@ -25,7 +31,6 @@ NOT_APPLICABLE = {
  "C07": "check not implemented yet in this snapshot (planned: R07.1-R07.8)",
  "C08": "check not implemented yet in this snapshot (planned: R08.1-R08.4)",
  "C11": "check not implemented yet in this snapshot (planned: R11.1-R11.5)",
- "C15": "check not implemented yet in this snapshot (planned: R15.1-R15.6)",
  "C16": "check not implemented yet in this snapshot (planned: R16.1-R16.5)",
  "C18": "check not implemented yet in this snapshot (planned: R18.1-R18.6)",
  "C20": "check not implemented yet in this snapshot (planned: R20.1-R20.6)",
